@@ -230,6 +230,13 @@ func (c *MJButtonComponent) Render(w io.StringWriter) error {
 			contentTag.AddAttribute(constants.AttrRel, rel)
 		}
 	}
+	// name and title are accepted on mj-button and belong on the link (or the paragraph), as in MJML
+	if name := c.GetAttributeWithDefault(c, "name"); name != "" {
+		contentTag.AddAttribute("name", name)
+	}
+	if title := c.GetAttributeWithDefault(c, "title"); title != "" {
+		contentTag.AddAttribute("title", title)
+	}
 
 	// Calculate inner width for anchor tag
 	innerWidth := c.calculateInnerWidth(width, innerPadding)
